@@ -105,9 +105,11 @@ func Cookies(cookies []*http.Cookie) event.Option {
 func (s *httpService) Handle(ctx context.Context, conn net.Conn) error {
 	id := xid.New()
 
-	for {
-		br := bufio.NewReader(conn)
+	// one buffered reader for the whole connection: a reader per request would throw away the
+	// bytes of pipelined requests it has already buffered
+	br := bufio.NewReader(conn)
 
+	for {
 		req, err := http.ReadRequest(br)
 		if err == io.EOF {
 			return nil
@@ -119,8 +121,9 @@ func (s *httpService) Handle(ctx context.Context, conn net.Conn) error {
 
 		body := make([]byte, 1024)
 
-		n, err := req.Body.Read(body)
-		if err == io.EOF {
+		// a single Read returns whatever has arrived so far: fill the buffer
+		n, err := io.ReadFull(req.Body, body)
+		if err == io.EOF || err == io.ErrUnexpectedEOF {
 		} else if err != nil {
 			return err
 		}
